@@ -286,11 +286,21 @@ func (r *Runner) RunCase(c *Case, prefixFolder string, ref Ref, created []bool) 
 			}
 			add("C07", "retry-crashed/"+cause, rerr.Error())
 		} else {
+			if rout.EndErr != "" && strings.Contains(rout.EndErr, "timed out") && !leftoverClaim(out.Post) {
+				// the retry runs with a short time budget so that a retry blocked by a leftover claim costs 4 s, not
+				// minutes; with nothing left over, a time-out is the machine (load), not sop: repeat with a real budget
+				rin.MaxTime = 60000
+				if rout2, rerr2 := RunTxn(rin, r.Root); rerr2 == nil {
+					rout = rout2
+				}
+			}
 			o.Retry = rout
 			if rout.EndErr != "" {
 				cause := "other"
 				if leftoverClaim(out.Post) {
 					cause = "leftover-claimed-inactive-id"
+				} else if leftoverDeletionMark(out.Post) {
+					cause = "leftover-deletion-mark"
 				}
 				add("C07", "retry-blocked/"+cause, fmt.Sprintf("after a failed commit (fault %+v at %s) the same changes do not commit: %s", c.Fault, faultSite(out, c.Fault), rout.EndErr))
 			} else {
@@ -336,6 +346,21 @@ func faultSite(out *ChildOut, f Fault) string {
 }
 
 // leftoverClaim reports whether a handle keeps a claimed (timestamped) inactive id.
+// leftoverDeletionMark: a handle still carries the deletion mark (IsDeleted with a fresh work-in-progress
+// timestamp) that commitRemovedNodes wrote: rollback undoes the marks only when the logged state is PAST
+// commitRemovedNodes, so a registry write of that step that was performed and then reported failed stays.
+func leftoverDeletionMark(s *State) bool {
+	if s == nil {
+		return false
+	}
+	for _, h := range s.Handles {
+		if h.Deleted && h.Wip == 2 {
+			return true
+		}
+	}
+	return false
+}
+
 func leftoverClaim(s *State) bool {
 	if s == nil {
 		return false
